@@ -21,7 +21,7 @@ def site_of(diff_line: str):
     """coarse, stable site from the first differing path"""
     p = diff_line.split(":")[0]
     for key in ("series_samp", "losses_samp", "params_samp", "batch_num_samp", "method_samp", "random_generator", "scheduler", "loss_function",
-                "n_sampled_params", "current_batch_index"):
+                "n_sampled_params", "current_batch_index", "samplers_id_table"):
         if key in p:
             return key
     return p.strip("[]'\".")[:30] or "state"
